@@ -10,6 +10,7 @@ import (
 	"fmt"
 	"math/big"
 	"reflect"
+	"runtime/debug"
 	"strings"
 	"time"
 
@@ -28,6 +29,11 @@ type cs struct {
 	Mask   int    `json:"mask,omitempty"`   // restart: which of msg1,gState,msg2,eState,msg3 go through Encode->Decode
 	Object string `json:"object,omitempty"` // R1 R2 R3 GS ES
 	Mut    string `json:"mut,omitempty"`    // flip:byte:bit | trunc:len | append:byte | varint:kind | sid | curve:<name>
+	// two: a second session (A2, B2, seed+7) runs interleaved with the first one in the same process; Order is the
+	// interleaving of the two sessions' steps (0 = a step of the first, 1 = a step of the second)
+	A2    string `json:"a2,omitempty"`
+	B2    string `json:"b2,omitempty"`
+	Order []int  `json:"order,omitempty"`
 }
 
 func curveByName(n string) elliptic.Curve {
@@ -192,6 +198,8 @@ func runCase(ctx *runner.Ctx, k cs) {
 		}
 		ctx.Nontrivial("identity/" + k.Curve + k.A + k.B)
 		ctx.Outcome("identity-ok/" + k.Curve)
+	case "two":
+		runTwo(ctx, k)
 	case "restart":
 		runRestart(ctx, k, h, w)
 	case "mutate":
@@ -239,6 +247,127 @@ func encode(curve elliptic.Curve, name string, v interface{}) ([]byte, error) {
 }
 
 // runRestart: the owner of each selected object restarts at that boundary (Encode -> Decode) and continues.
+// runTwo runs two sessions in one process with their steps interleaved as k.Order says. Every message and every
+// session state travels as bytes: it is encoded when produced, the bytes are kept, and the consumer decodes the
+// kept bytes when its step comes (both parties restart between all rounds, and a party serves two sessions).
+// Oracles: both digests are right; and no byte slice an encoder returned changes afterwards (each is compared with
+// a private copy taken when it was returned) - the garbage collector is held off during the case so that what
+// sync.Pool hands back does not depend on collection timing.
+func runTwo(ctx *runner.Ctx, k cs) {
+	defer debug.SetGCPercent(debug.SetGCPercent(-1))
+	curve := curveByName(k.Curve)
+	type sess struct {
+		a, b   [32]byte
+		seed   uint64
+		step   int
+		kept   map[string][]byte
+		copies map[string][]byte
+	}
+	ss := []*sess{
+		{a: input32(k.A), b: input32(k.B), seed: k.Seed, kept: map[string][]byte{}, copies: map[string][]byte{}},
+		{a: input32(k.A2), b: input32(k.B2), seed: k.Seed + 7, kept: map[string][]byte{}, copies: map[string][]byte{}},
+	}
+	fail := func(kind, what string) {
+		ctx.Violate("two-sessions."+kind, fmt.Sprintf("two interleaved sessions on %s, order %v: %s", k.Curve, k.Order, what), k)
+	}
+	keep := func(s *sess, name string, v interface{}) bool {
+		enc, err := encode(curve, name, v)
+		if err != nil {
+			fail("encode."+name, err.Error())
+			return false
+		}
+		s.kept[name] = enc
+		s.copies[name] = append([]byte(nil), enc...)
+		return true
+	}
+	load := func(s *sess, name string) (interface{}, bool) {
+		v, err := decode(curve, name, s.kept[name])
+		if err != nil {
+			fail("decode."+name, fmt.Sprintf("the kept %s bytes of a session no longer decode: %v", name, err))
+			return nil, false
+		}
+		return v, true
+	}
+	var digests [2][32]byte
+	for _, who := range k.Order {
+		s := ss[who]
+		switch s.step {
+		case 0:
+			m1, gs, err := sha2pc.GarblerRound1(drbg.New(s.seed*3+1), curve)
+			if err != nil {
+				fail("round1", err.Error())
+				return
+			}
+			if !keep(s, "R1", m1) || !keep(s, "GS", gs) {
+				return
+			}
+		case 1:
+			v, ok := load(s, "R1")
+			if !ok {
+				return
+			}
+			m2, es, err := sha2pc.EvaluatorRound2(drbg.New(s.seed*3+3), curve, v.(sha2pc.Round1Payload), s.b)
+			if err != nil {
+				fail("round2", err.Error())
+				return
+			}
+			if !keep(s, "R2", m2) || !keep(s, "ES", es) {
+				return
+			}
+		case 2:
+			g, ok := load(s, "GS")
+			if !ok {
+				return
+			}
+			v, ok := load(s, "R2")
+			if !ok {
+				return
+			}
+			m3, err := sha2pc.GarblerRound3(drbg.New(s.seed*3+2), curve, g.(*sha2pc.GarblerSession), s.a, v.(sha2pc.Round2Payload))
+			if err != nil {
+				fail("round3", err.Error())
+				return
+			}
+			if !keep(s, "R3", m3) {
+				return
+			}
+		case 3:
+			e, ok := load(s, "ES")
+			if !ok {
+				return
+			}
+			v, ok := load(s, "R3")
+			if !ok {
+				return
+			}
+			d, err := sha2pc.EvaluatorRound4(curve, e.(*sha2pc.EvaluatorSession), v.(sha2pc.Round3Payload))
+			if err != nil {
+				fail("round4", fmt.Sprintf("session %d: %v", who, err))
+				return
+			}
+			digests[who] = d
+		}
+		s.step++
+	}
+	for i, s := range ss {
+		if s.step != 4 {
+			panic("two: incomplete order")
+		}
+		if w := want(s.a, s.b); digests[i] != w {
+			fail("digest", fmt.Sprintf("session %d: digest %x, SHA-256(a xor b) = %x", i, digests[i], w))
+			return
+		}
+		for name, enc := range s.kept {
+			if !bytes.Equal(enc, s.copies[name]) {
+				fail("encoding-changed-later."+name, fmt.Sprintf("the %s bytes returned for session %d were overwritten by a later call", name, i))
+				return
+			}
+		}
+	}
+	ctx.Nontrivial(fmt.Sprintf("two/%s/%v", k.Curve, k.Order))
+	ctx.Outcome("two-sessions-ok/" + k.Curve)
+}
+
 func runRestart(ctx *runner.Ctx, k cs, h *honest, w [32]byte) {
 	rt := func(name string, v interface{}) (interface{}, error) {
 		enc, err := encode(h.curve, name, v)
@@ -550,6 +679,30 @@ func work(ctx *runner.Ctx) {
 			if oc != cv {
 				cases = append(cases, cs{Mode: "foreign", Curve: cv, A: A[4], B: A[2], Seed: seed, Mut: "curve:" + oc})
 			}
+		}
+	}
+	// two sessions in one process: every interleaving of their 4+4 steps (70) on P-256, a stride elsewhere
+	var orders [][]int
+	var gen func(o []int, n0, n1 int)
+	gen = func(o []int, n0, n1 int) {
+		if n0 == 4 && n1 == 4 {
+			orders = append(orders, append([]int(nil), o...))
+			return
+		}
+		if n0 < 4 {
+			gen(append(o, 0), n0+1, n1)
+		}
+		if n1 < 4 {
+			gen(append(o, 1), n0, n1+1)
+		}
+	}
+	gen(nil, 0, 0)
+	for ci, cv := range curves {
+		for oi, o := range orders {
+			if cv != "P-256" && (quick || oi%4 != ci) && oi%23 != ci {
+				continue
+			}
+			cases = append(cases, cs{Mode: "two", Curve: cv, A: A[4], B: A[2], A2: A[3], B2: A[1], Seed: seed, Order: o})
 		}
 	}
 	// mutations of every encoded object
